@@ -50,6 +50,9 @@ static unsigned n_alloc, n_free;
 #if defined(C10_TYPED) && !defined(C10_DATA)
 #define C10_DATA 0
 #endif
+#ifndef C10_PUT_PSIZE
+#define C10_PUT_PSIZE C10_PSIZE   /* h_put_limit: size class of the page that is put (may differ from the size class of the cached pages) */
+#endif
 #ifndef C10_DATA
 #define C10_DATA 8                /* bytes of page body kept under CBMC (see the memcpy model below) */
 #endif
@@ -70,9 +73,9 @@ typedef char c10_layout_check[(sizeof(struct c10_page) == 88 + C10_DATA && offse
   && offsetof(struct c10_page, network) == offsetof(cache_page, network) && offsetof(struct c10_page, priority) == offsetof(cache_page, priority)) ? 1 : -1];
 #ifdef VERIF_CBMC
 #ifdef C10_TYPED
-static cache_page PGO0, PGO1, PGO2, PGO3, SRCO;
+static cache_page PGO0, PGO1, PGO2, PGO3, SRCO, SRCO2;
 #else
-static _Alignas(8) struct c10_page PGO0, PGO1, PGO2, PGO3, SRCO;
+static _Alignas(8) struct c10_page PGO0, PGO1, PGO2, PGO3, SRCO, SRCO2;
 #endif
 static cache_network NTO0, NTO1;
 #if C10_NN > 2
@@ -115,7 +118,7 @@ static void *c10_alloc(size_t size)
     return NULL;
   }
   V_ASSERT(size >= sizeof(cache_page) - sizeof(((cache_page *) 0)->data) && size <= sizeof(cache_page), "alloc_size_is_a_page_size");
-  V_ASSERT(size == C10_PSIZE, "alloc_size_is_the_configured_page_size");
+  V_ASSERT(size == C10_PSIZE || size == C10_PUT_PSIZE, "alloc_size_is_the_configured_page_size");
   for (i = 0; i < NP; i++) if (!pg_live[i]) {
     pg_live[i] = 1; pg_size[i] = (unsigned) size; n_alloc++;
 #ifdef VERIF_CBMC
@@ -749,8 +752,12 @@ V_HARNESS(h_get)
 }
 
 /* _vbi_cache_put_page */
+#ifndef C10_PUT_FN
 #define C10_PUT_FN C10_FN
+#endif
+#ifndef C10_PUT_X26
 #define C10_PUT_X26 C10_X26
+#endif
 #define C10_PUT_X28 C10_X28
 #ifdef VERIF_CBMC
 #define BODY_LAST (88 + C10_DATA - 1)
@@ -764,7 +771,7 @@ static void src_new(void)
 #ifdef VERIF_CBMC
   SRCP = (cache_page *) &SRCO;
 #else
-  SRCP = (cache_page *) c10_calloc(1, C10_PSIZE);
+  SRCP = (cache_page *) c10_calloc(1, C10_PUT_PSIZE);
 #endif
 }
 V_HARNESS(h_put)
@@ -832,6 +839,92 @@ V_HARNESS(h_put)
       if (a != (int) psel) V_ASSERT(stat_eq(&V0.st[net][a], &V1.st[net][a]), "put_other_page_statistics_untouched");
     }
     V_ASSERT(V1.st[net][psel].subno_min <= s2 && (s2 > 0xFF || V1.st[net][psel].subno_max >= s2), "put_subno_range_contains_new_page");
+  }
+  V_END();
+}
+
+/* _vbi_cache_put_page at the memory limit with an unreferenced cached page of a DIFFERENT size class, as a SEQ from the real empty cache (the INV-STEP
+ * form - arbitrary pre-state, symbolic or grid-concrete limit - does not finish: put's eviction walks over a built priority list, > 600 s of symex):
+ *   vbi_cache_new, add_network, put(page of size class C10_PSIZE, e.g. AIT = 1196 bytes), release it (it stays cached, unreferenced: memory_used = 1196),
+ *   memory_limit := C10_LIMIT (runner grid: boundary values derived from the two sizes; vbi_cache_new sets 1 GB, with which the boundary needs ~700 000
+ *   cached pages - out of reach of any bounded history, so the limit is a parameter of the sequence), put(page of size class C10_PUT_PSIZE, e.g. LOP = 1564).
+ * Both page numbers are grid-concrete, both sub-codes symbolic: the second put replaces the cached page (same key) or not (then the page is evicted iff room is needed).
+ * Contract of the second put: it may fail only when a page with another key would have to be given up (documented: NULL = out of memory), never when it
+ * replaces the cached page or fits next to it, and never succeeds beyond the limit; the block returned has exactly the size of the new page - an allocation of another size class is never reused - and the body copy stays inside both
+ * allocations; the cached page is freed exactly when it is replaced or has to make room; a failed put changes nothing; audit (accounting exact, within the limit). */
+#ifndef C10_LIMIT
+#define C10_LIMIT (1u << 30)
+#endif
+#ifndef C10_Q0
+#define C10_Q0 0
+#endif
+#ifndef C10_Q1
+#define C10_Q1 0
+#endif
+V_HARNESS(h_seq_limit)
+{
+  cache_network *cn; cache_page *r0, *r1, *srca, *srcb; int s0, s1, k0, k1, m0_, m1_, same, room, must_go, ri, i; uint8_t mk0, mk1; unsigned pt;
+  const int pg0 = PGA[C10_Q0], pg1 = PGA[C10_Q1];
+  V_INIT();
+  CA = vbi_cache_new();
+  cn = _vbi_cache_add_network(CA, NULL, 0);
+  V_ASSERT(cn != NULL && audit(&V0) && V0.nn == 1, "seq_first_network");
+#ifdef VERIF_CBMC
+  srca = (cache_page *) &SRCO; srcb = (cache_page *) &SRCO2;
+#else
+  srca = (cache_page *) c10_calloc(1, C10_PSIZE); srcb = (cache_page *) c10_calloc(1, C10_PUT_PSIZE);
+#endif
+  s0 = (int) in_u16(); s1 = (int) in_u16(); mk0 = in_u8(); mk1 = in_u8(); pt = in_u8();
+  V_ASSUME((s0 & ~0x3F7F) == 0 && (s1 & ~0x3F7F) == 0);
+  V_ASSERT(ref_size((int) (C10_FN), C10_X26, C10_X28) == C10_PSIZE && ref_size((int) (C10_PUT_FN), C10_PUT_X26, C10_PUT_X28) == C10_PUT_PSIZE, "grid_functions_match_size_classes");
+  cn->_pages[pg0 - 0x100].page_type = (uint8_t) pt; cn->_pages[pg1 - 0x100].page_type = (uint8_t) pt;      /* the decoder (packet.c) owns page_type */
+  srca->function = (enum ttx_page_function) (C10_FN); srca->x26_designations = C10_X26; srca->x28_designations = C10_X28;
+  srca->pgno = pg0; srca->subno = s0; ((uint8_t *) srca)[offsetof(cache_page, data)] = mk0;
+  r0 = _vbi_cache_put_page(CA, cn, srca);
+  V_ASSERT(r0 != NULL && r0 == pg_ptr[0] && pg_size[0] == C10_PSIZE, "seqlimit_first_put");
+  cache_page_unref(r0);
+  V_ASSERT(C10_LIMIT >= C10_PSIZE, "grid_limit_not_below_memory_used");
+  CA->memory_limit = C10_LIMIT;
+  V_ASSERT(audit(&V0) && V0.pn == 1 && V0.rn == 0 && V0.ca_mem == C10_PSIZE && V0.ca_pages == 1, "seqlimit_released_page_stays_cached");
+  srcb->function = (enum ttx_page_function) (C10_PUT_FN); srcb->x26_designations = C10_PUT_X26; srcb->x28_designations = C10_PUT_X28;
+  srcb->pgno = pg1; srcb->subno = s1; ((uint8_t *) srcb)[offsetof(cache_page, data)] = mk1;
+#ifdef VERIF_CBMC
+  MC_calls = 0;
+#endif
+
+  r1 = _vbi_cache_put_page(CA, cn, srcb);
+
+  V_ASSERT(audit(&V1), "seqlimit_audit_after_put");
+  ref_put_key(pg0, s0, (int) pt, &k0, &m0_); ref_put_key(pg1, s1, (int) pt, &k1, &m1_);
+  same = pg0 == pg1 && ((k0 ^ k1) & m1_) == 0;              /* the new page has the key of the cached one */
+  room = (unsigned long) C10_LIMIT >= C10_PUT_PSIZE && (unsigned long) C10_LIMIT - C10_PSIZE >= C10_PUT_PSIZE;      /* fits next to the cached page */
+  if (!same && !room) V_REACH("eviction_needed");
+  if (r1 == NULL) {
+    /* "NULL on failure (out of memory)" is the documented contract; the property demands exact bookkeeping, not that put finds room whenever room could be made
+       (it does not: a victim taken in the LAST pass of the eviction walks - SPECIAL priority, network held - is never followed by the `enough now?' test, so the
+       put fails although giving up that page would do; reported as an observation, not asserted) */
+    V_ASSERT(all_same(&V0, &V1), "seqlimit_failed_put_changes_nothing");
+    V_ASSERT(!((same && (unsigned long) C10_LIMIT >= C10_PUT_PSIZE) || room), "seqlimit_put_fails_only_when_a_foreign_page_would_have_to_go");
+    V_REACH("failed");
+  } else {
+    V_ASSERT((unsigned long) C10_LIMIT >= C10_PUT_PSIZE, "seqlimit_no_success_without_room");
+    must_go = same || !room;
+    ri = -1; for (i = 0; i < NP; i++) if (pg_live[i] && r1 == pg_ptr[i]) ri = i;
+    V_ASSERT(ri >= 0, "seqlimit_returns_live_page");
+    V_ASSERT(pg_size[ri] == C10_PUT_PSIZE && V1.p_size[ri] == C10_PUT_PSIZE, "seqlimit_block_has_the_size_of_the_new_page");
+#ifdef VERIF_CBMC
+    V_ASSERT(MC_calls == 1 && MC_dst == (const void *) ((const char *) r1 + offsetof(cache_page, data)) && MC_src == (const void *) ((const char *) srcb + offsetof(cache_page, data))
+             && MC_n == C10_PUT_PSIZE - offsetof(cache_page, data), "seqlimit_body_copy_stays_inside_both_allocations");
+#endif
+    V_ASSERT(V1.p_pgno[ri] == pg1 && V1.p_subno[ri] == k1 && V1.p_fn[ri] == (int) (C10_PUT_FN) && V1.p_m0[ri] == mk1 && V1.p_ref[ri] == 1, "seqlimit_stores_copy_under_normalised_key");
+    if (must_go) {
+      V_ASSERT((ri == 0 || !V1.p_live[0]) && V1.ca_pages == 1 && V1.ca_mem == 0 && V1.pn == 0, "seqlimit_victim_gone_accounting_exact");
+      if (same) V_REACH("replaced"); else V_REACH("evicted");
+    } else {
+      V_ASSERT(ri != 0 && page_same(&V0, &V1, 0) && V1.ca_pages == 2 && V1.ca_mem == V0.ca_mem, "seqlimit_cached_page_kept_when_room_suffices");
+      V_REACH("kept");
+    }
+    V_ASSERT(V1.rn == 1 && V1.rs[0] == ri && V1.ca_mem <= C10_LIMIT, "seqlimit_new_page_held_and_within_limit");
   }
   V_END();
 }
